@@ -91,6 +91,13 @@ Fixpoint listZ_eqb (a b : list Z) : bool :=
 Fixpoint pairs_of (l : list Z) : list (list Z) :=
   match l with u :: ((v :: _) as r) => [u; v] :: pairs_of r | _ => [] end.
 
+(* the hypothesis of the makespan bound: no edge weighs more than the time difference of its end points *)
+Definition span_okb (N : list cpnode) (W : list edge) : bool :=
+  forallb (fun e => match find_node N (e_src e), find_node N (e_dst e) with
+                    | Some a, Some b => e_w e <=? c_ts b - c_ts a
+                    | _, _ => false
+                    end) W.
+
 Definition check_C09 (N : list cpnode) (W : list edge) (order cp : list Z) (cp_pairs : list (list Z)) (cp_events : list Z) : list bool :=
   let d := dp W order in
   match path_edges W cp with
@@ -100,7 +107,8 @@ Definition check_C09 (N : list cpnode) (W : list edge) (order cp : list Z) (cp_p
         path_weight p =? max_value d;
         rows_eqb (sort_rows (pairs_of cp)) (sort_rows cp_pairs);
         listZ_eqb (sortu (flat_map (fun i => match find_node N i with Some n => [c_ev n] | None => [-7] end) cp)) (sortu cp_events);
-        path_weight p <=? maxZ 0 (map c_ts N) - minZ 0 (map c_ts N) ]
+        path_weight p <=? maxZ 0 (map c_ts N) - minZ 0 (map c_ts N);
+        span_okb N W ]
   | None => [false]
   end.
 
